@@ -359,7 +359,7 @@ class Adapt:
         else:
             fqtitle = self.nshandler.get_fqname(name, defaultns=defaultns)
             return index_url_prefix + "title=%s" % urllib.parse.quote(
-                fqtitle.replace(" ", "_").encode("utf-8"), safe=":/@"
+                fqtitle.replace(" ", "_").encode("utf-8", "surrogatepass"), safe=":/@"
             )
 
     def get_description_url(self, name):
